@@ -221,7 +221,17 @@ def F38():  # C28 an empty text given with a file name: the file on disk is pars
     d = tempfile.mkdtemp(); f = os.path.join(d, "a.mdl"); open(f, "w").write("model item fromdisk")
     try: mm.model_from_str("", file_name=f); return True
     except TextXError as e: return not (e.line == 1 and e.col == 1)
-ALL = [F38, F37, F36, F28, F1, F2, F3, F4, F5, F6, F7, F8, F9, F10, F11, F12, F13, F14, F15_16, F18, F19, F20, F21, F22, F23, F24, F26, F27]
+def F39():  # C29 a falsy model object cannot be exported
+    import io as _io
+    from textx.export import model_export_to_file
+    class Model:
+        def __init__(self, **kw):
+            for k, v in kw.items(): setattr(self, k, v)
+        def __len__(self): return len(self.items)
+    mm = metamodel_from_str("Model: 'model' items*=Item; Item: 'item' name=ID;", classes=[Model])
+    try: model_export_to_file(_io.StringIO(), mm.model_from_str("model")); return False
+    except Exception: return True
+ALL = [F39, F38, F37, F36, F28, F1, F2, F3, F4, F5, F6, F7, F8, F9, F10, F11, F12, F13, F14, F15_16, F18, F19, F20, F21, F22, F23, F24, F26, F27]
 if __name__ == "__main__":
     sel = sys.argv[1:]
     for w in ALL:
